@@ -59,6 +59,14 @@ M = [
  ('r2_fire', 'semantic', 'lib/icinga/checkable-notification.cpp', 'if (!NotificationReasonSuppressed(type) && !IsLikelyToBeCheckedSoon() && !wasLastParentRecoveryRecent.Get()) {\n\t\t\t\t\tCheckable::OnNotificationsRequested(this, type, GetLastCheckResult()', 'if (!NotificationReasonSuppressed(type) && !wasLastParentRecoveryRecent.Get()) {\n\t\t\t\t\tCheckable::OnNotificationsRequested(this, type, GetLastCheckResult()', 'flapping notifications no longer wait for an imminent check'),
  ('r2_fire', 'harmless', 'lib/icinga/checkable-notification.cpp', 'int suppressed_types_after (suppressed_types_before & ~subtract);', 'int suppressed_types_after (suppressed_types_before - (suppressed_types_before & subtract));', 'bit clearing written as a subtraction'),
  ('r2_fire2', 'semantic', 'lib/icinga/checkable-notification.cpp', 'if (dynamic_cast<Host*>(this))\n\t\t\t\t\tdiffers = Host::CalculateState(cr->GetState()) != Host::CalculateState(GetStateBeforeSuppression());', '', 'hosts compare raw states again (the defect fixed by 5e50b7a)'),
+ ('r2_gate', 'semantic', 'lib/icinga/notification.cpp', 'if (timesEnd != Empty && timesEnd >= 0 && now > checkable->GetLastHardStateChange() + timesEnd) {', 'if (timesEnd != Empty && timesEnd >= 0 && now >= checkable->GetLastHardStateChange() + timesEnd) {', 'times.end window closes one second early'),
+ ('r2_gate', 'harmless', 'lib/icinga/notification.cpp', 'if (times && type == NotificationProblem) {', 'if (type == NotificationProblem && times) {', 'reordered conjuncts'),
+ ('r2_gate2', 'semantic', 'lib/icinga/notification.cpp', 'for (int conflict : {NotificationProblem | NotificationRecovery, NotificationFlappingStart | NotificationFlappingEnd}) {', 'for (int conflict : {NotificationFlappingStart | NotificationFlappingEnd}) {', 'stashed Problem and Recovery no longer cancel out'),
+ ('r2_user', 'semantic', 'lib/icinga/notification.cpp', 'if (type == NotificationAcknowledgement) {\n\t\t\tif (!notifiedProblemUsers->Contains(userName) && (NotificationProblem & user->GetTypeFilter())) {', 'if (type == NotificationAcknowledgement) {\n\t\t\tif (!notifiedProblemUsers->Contains(userName)) {', 'acknowledgement rule also applies to users without Problem in their type filter'),
+ ('r2_user', 'harmless', 'lib/icinga/notification.cpp', 'if (type == NotificationAcknowledgement) {\n\t\t\tif (!notifiedProblemUsers->Contains(userName) && (NotificationProblem & user->GetTypeFilter())) {', 'if (type == NotificationAcknowledgement) {\n\t\t\tbool sawProblem = notifiedProblemUsers->Contains(userName);\n\t\t\tif ((NotificationProblem & user->GetTypeFilter()) && !sawProblem) {', 'hoisted local, reordered conjuncts'),
+ ('r2_book', 'semantic', 'lib/icinga/notification.cpp', 'if (type == NotificationProblem && GetInterval() <= 0)\n\t\t\tSetNoMoreNotifications(true);', 'if (type == NotificationProblem && GetInterval() < 0)\n\t\t\tSetNoMoreNotifications(true);', 'interval 0 no longer disables reminders'),
+ ('r2_timer', 'semantic', 'lib/notification/notificationcomponent.cpp', 'if (!reachable || checkable->IsInDowntime() || checkable->IsAcknowledged() || checkable->IsFlapping())', 'if (!reachable || checkable->IsInDowntime() || checkable->IsAcknowledged())', 'reminders are sent while flapping'),
+ ('r2_timer', 'harmless', 'lib/notification/notificationcomponent.cpp', 'if ((service && service->GetState() == ServiceOK) || (!service && host->GetState() == HostUp))', 'if (service ? service->GetState() == ServiceOK : host->GetState() == HostUp)', 'ternary instead of two guarded disjuncts'),
  ('is_child_of', 'unrecognised', 'lib/remote/zone.cpp', '\tZone::Ptr azone = this;\n', '\tZone::Ptr azone = GetParent();\n', 'call outside the binding environment: degrades'),
 ]
 
@@ -81,6 +89,8 @@ def make():
     return r.returncode == 0, failed
 
 
+sh('git -C %s checkout -q .' % SCR)
+BASE = set(l for l in regen(SCR).splitlines() if l.startswith('xlate:') and 'not recognised' in l)     # fallbacks of the pristine tree
 rows = []
 for mid, kind, f, old, new, what in M:
     if FILT and FILT not in mid: continue
@@ -91,7 +101,7 @@ for mid, kind, f, old, new, what in M:
         rows.append(dict(id=mid, kind=kind, what=what, result='PATTERN NOT UNIQUE (%d)' % src.count(old))); print(rows[-1]); continue
     open(p, 'w').write(src.replace(old, new))
     log = regen(SCR)
-    unrec = [l for l in log.splitlines() if l.startswith('xlate:') and 'not recognised' in l]
+    unrec = [l for l in log.splitlines() if l.startswith('xlate:') and 'not recognised' in l and l not in BASE]
     ok_all, failed_all = make()
     # files of the translator tie; a failure elsewhere (older regex facts) is listed but judged separately
     failed = [x for x in failed_all if x.startswith('Src/') or '_src' in x or 'Facts_fn' in x]
